@@ -74,7 +74,7 @@ def generate(rng, run, tier):
     n = rng.randint(3, 8)
     defined = False
     objs = ['T', 'T', 'other', 'int', 'str', 'none', 'list_T', 'list_other', 'dict_T', 'tuple_T', 'cls_T', 'tuple_int_T', 'list_none',
-            'tuple_T_str', 'tuple_str_T', 'dict_int_T', 'T_bad', 'T_bad', 'T_good']
+            'tuple_T_str', 'tuple_str_T', 'dict_int_T', 'T_bad', 'T_bad', 'T_good', 'T_sub', 'T_sub', 'T_subsub', 'cls_T_sub', 'list_T_sub']
     if shape in IGNORABLE_SHAPES and rng.random() < 0.9:
         # avoid switch: known finding C07-fwdref-hidden-in-ignorable-child (most runs steer around it)
         shape = 'list[{T}]'
@@ -154,6 +154,18 @@ def _obj(kind, tcls, other):
         if isinstance(tcls, type) and issubclass(tcls, dict):
             return tcls({'k': 'oops'} if kind == 'T_bad' else {'k': 1})
         return tcls()
+    if kind in ('T_sub', 'T_subsub', 'cls_T_sub', 'list_T_sub'):
+        # an instance of a direct (or second-level) subclass of T, or that subclass itself
+        sub = type('Sub', (tcls,), {})
+        if kind == 'T_subsub':
+            sub = type('SubSub', (sub,), {})
+        if kind == 'cls_T_sub':
+            return sub
+        try:
+            inst = sub()
+        except TypeError:
+            inst = tcls()
+        return [inst] if kind == 'list_T_sub' else inst
     if kind == 'T':
         return tcls()
     if kind == 'other':
